@@ -530,7 +530,7 @@ class Walk:
         else:
             cands = []
             for j, b in enumerate(H.A):
-                if b.chinfo == a.chinfo and len(b._data) == len(b._qdata):
+                if b.chinfo == a.chinfo and self.usable(b):
                     ps = self.contractible_pairs(a, b)
                     if ps:
                         cands.append((j, ps))
